@@ -794,7 +794,15 @@ func (r *FeatureLocal) processWrite(msg *api.Message) {
 	}
 }
 
-func (r *FeatureLocal) executeWrite(msg *api.Message) *model.ErrorType {
+func (r *FeatureLocal) executeWrite(msg *api.Message) (result *model.ErrorType) {
+	// an approved write is executed in the goroutine of the application, so an
+	// invalid write is not caught by the handling of incoming messages there
+	defer func() {
+		if r := recover(); r != nil {
+			result = model.NewErrorTypeFromString(fmt.Sprintf("invalid write: %v", r))
+		}
+	}()
+
 	cmdData, err := msg.Cmd.Data()
 	if err != nil {
 		return model.NewErrorType(model.ErrorNumberTypeCommandNotSupported, err.Error())
